@@ -114,6 +114,8 @@ impl<'a> Request<'a> {
 //@|        self matches Request::WriteSingleRegister(x) ==> r == Some(BroadcastRequest::WriteSingleRegister(x)),
 //@|        self matches Request::WriteMultipleCoils(x) ==> r == Some(BroadcastRequest::WriteMultipleCoils(x)),
 //@|        self matches Request::WriteMultipleRegisters(x) ==> r == Some(BroadcastRequest::WriteMultipleRegisters(x)),
+//@|        r is None <==> crate::server::request::spec_call(self@) is None,
+//@|        r matches Some(b) ==> Some(b@) == crate::server::request::spec_call(self@) && (self.wf() ==> b.wf()),
 
 // [C01,C02] a request is decoded iff the reference decoder accepts it, and then it means the same thing
 //@fn rodbus/src/server/request.rs | Request<'a>::parse | tags=C01,C02,C07
@@ -121,4 +123,7 @@ impl<'a> Request<'a> {
 //@|    ensures
 //@|        r is Ok <==> spec_parse_request(function, old(cursor).rest()) is Some,
 //@|        r is Ok ==> spec_req_eq(spec_parse_request(function, old(cursor).rest())->Some_0, r->Ok_0@) && r->Ok_0.wf(),
+//@|        r is Ok ==> spec_parse_request(function, old(cursor).rest()) == Some(r->Ok_0@),
+//@exit 6| if r__ is Ok { lemma_spec_req_eq(spec_parse_request(function, old(cursor).rest())->Some_0, r__->Ok_0@); }
+//@exit 7| if r__ is Ok { lemma_spec_req_eq(spec_parse_request(function, old(cursor).rest())->Some_0, r__->Ok_0@); }
 }
